@@ -525,3 +525,53 @@ def _int_saturating(m, args, raw):
     if op.startswith("saturating"):
         return z3.If(r > top, z3.IntVal(top), z3.If(r < 0, z3.IntVal(0), r))
     return r % (top + 1)
+
+
+@model("<Iter as Iterator>::position", "<Iter as Iterator>::any", "<Iter as Iterator>::all")
+def _iter_position(m, args, raw):
+    """position / any / all over a slice iterator with a closure taking the element (by reference for any/all on Iter<T>: Item = &T)"""
+    it = deref(args[0])
+    items, pos, end = it.fields
+    mc = re.search(r"\{closure@[^}]*\}", raw)
+    fn = m.index.get(mc.group(0)) if mc else None
+    fname = None
+    if fn is None:
+        # the predicate is a function item (e.g. <Box<dyn Matcher> as Matcher>::has_side_effects)
+        fname = args[1].what[len("const "):] if isinstance(args[1], Opaque) and str(args[1].what).startswith("const ") else None
+        if fname is None:
+            raise Unsupported("closure of " + raw[:60])
+    which = normalize_tail(raw)
+    k = 0
+    while it.fields[1] < end:
+        p = it.fields[1]
+        it.fields[1] = p + 1
+        if fname is not None:
+            r = m.truth(m.call(fname, [Ptr(items, p)]))
+        else:
+            r = m.run(fn, [Ptr([args[1]], 0) if fn.params and fn.params[0][1].lstrip().startswith("&") else args[1], Ptr(items, p)])
+        if not isinstance(r, bool):
+            r = m.decide(r)
+        if which == "position" and r:
+            return Some(k)
+        if which == "any" and r:
+            return True
+        if which == "all" and not r:
+            return False
+        k += 1
+    return NONE() if which == "position" else (which == "all")
+
+
+def normalize_tail(raw):
+    return re.sub(r"::<.*$", "", raw).rsplit("::", 1)[-1]
+
+
+@model("bool::then")
+def _bool_then(m, args, raw):
+    c = args[0] if isinstance(args[0], bool) else m.decide(args[0])
+    if not c:
+        return NONE()
+    mc = re.search(r"\{closure@[^}]*\}", raw)
+    fn = m.index.get(mc.group(0)) if mc else None
+    if fn is None:
+        raise Unsupported("closure of " + raw[:60])
+    return Some(m.run(fn, [args[1]]))
